@@ -20,7 +20,7 @@ import (
 // C04: the reply stream is always well-formed RESP.
 
 // Nasty is the nasty-string set N of DESIGN.md.
-var Nasty = []string{"", "a", "\r\n", "\n", "\r", "x\r\ny", "\r\n+OK\r\n", "\r\n:1\r\n", "\r\n$-1\r\n", "\x00", "$-1", "*1", "\xff"}
+var Nasty = []string{"", "a", "\r\n", "\n", "\r", "x\r\ny", "\r\n+OK\r\n", "\r\n:1\r\n", "\r\n$-1\r\n", "\x00", "$-1", "*1", "\xff", "100%", "%s%d%%%v"}
 
 // NastyMore extends the set in the thorough tier.
 var NastyMore = []string{"\n\r", "\r\r\n", "x\ry", "x\ny", "\r\n*1\r\n$4\r\nPING\r\n", "\r\n-ERR forged\r\n", "+OK", "\r\n\r\n", "a\r", "\na"}
@@ -180,7 +180,7 @@ func c04Check(cs c04Case) (clause, detail string) {
 }
 
 func c04Run(c *fw.Ctx) {
-	if c.Thorough() && len(Nasty) == 13 {
+	if c.Thorough() && len(Nasty) == 15 {
 		Nasty = append(Nasty, NastyMore...)
 	}
 	ping := grammar.Encode([]string{"PING"})
